@@ -258,6 +258,14 @@ def _trio_tests(ctx: Ctx, c: ClassInfo) -> list[tuple[int, set[str]]]:
                 len(n.args) == 2
             ):
                 t = n.args[1]
+                if isinstance(t, ast.Name):
+                    # a module-level tuple constant naming the classes
+                    for st in c.module.tree.body:
+                        if isinstance(st, ast.Assign) and any(
+                                isinstance(x, ast.Name) and x.id == t.id
+                                for x in st.targets) and isinstance(
+                                    st.value, ast.Tuple):
+                            t = st.value
                 names = {norm(e) for e in (
                     t.elts if isinstance(t, ast.Tuple) else [t])}
                 if names & TRIO:
@@ -338,8 +346,13 @@ def path(ctx: Ctx, rep: Report) -> None:
             'the BarrierBin branch is not selected exactly by the '
             'barrier-like isinstance test', key='barrier-branch',
         )
-        pt = [x for x in g.nodes if x.id in body and q.assigns(
-            'point', 'CircuitPoint(cycle, op.location[0])')(x)]
+        pt = [
+            x for x in g.nodes if x.id in body and x.kind == 'stmt'
+            and isinstance(x.stmt, ast.Assign)
+            and norm(x.stmt.targets[0]) == 'point'
+            and norm(valnum.subst(ctx, f, x, x.stmt.value)) == (
+                'CircuitPoint(cycle, op.location[0])')
+        ]
         rep.check(
             len(pt) == 1, P, 'QuickPartitioner.run:point', f.path,
             lp.lineno, 'the binned point is the operation\'s own position',
@@ -382,11 +395,32 @@ def path(ctx: Ctx, rep: Report) -> None:
         n, ast.FunctionDef) and n.name == 'process_pending_bins']
     if not ppf:
         raise AnalysisError('process_pending_bins helper not found')
-    t = norm(ppf[0])
+    # structural: the first argument of partitioned_circuit.append_circuit
+    # is a name defined as circuit.get_slice(bin.op_list); the third is
+    # `not isinstance(bin, BarrierBin)`, possibly through a temporary
+    single: dict[str, list[ast.expr]] = {}
+    for s in ast.walk(ppf[0]):
+        if isinstance(s, ast.Assign) and len(s.targets) == 1 and isinstance(
+                s.targets[0], ast.Name):
+            single.setdefault(s.targets[0].id, []).append(s.value)
+
+    def _res(e: ast.expr) -> str:
+        if isinstance(e, ast.Name) and len(single.get(e.id, [])) == 1:
+            return norm(single[e.id][0])
+        return norm(e)
+    emits = [
+        c for c in ast.walk(ppf[0]) if isinstance(c, ast.Call)
+        and norm(c.func) == 'partitioned_circuit.append_circuit'
+        and len(c.args) >= 4
+    ]
+    emit_ok = len(emits) == 1 and isinstance(
+        emits[0].args[0], ast.Name) and any(
+            norm(v) == 'circuit.get_slice(bin.op_list)'
+            for v in single.get(emits[0].args[0].id, [])
+    ) and _res(emits[0].args[2]) == 'not isinstance(bin, BarrierBin)' and (
+        norm(emits[0].args[3]) == 'True')
     rep.check(
-        'subc = circuit.get_slice(bin.op_list)' in t
-        and 'partitioned_circuit.append_circuit(subc, loc, not isinstance('
-        'bin, BarrierBin), True)' in t, P,
+        emit_ok, P,
         'QuickPartitioner.run:emit', f.path, ppf[0].lineno,
         'an emitted block is exactly the slice of the bin\'s original '
         'points; barrier bins are emitted unfolded',
